@@ -249,3 +249,80 @@ def wavefront_ctor_rules(chk, repo, clause):
             unit = d == nf.ONE or (da is not None and is_app(da, 'copy') and da[2][0] == nf.ONE)
             ok = unit and fs[0].bound.get('offset') == NONE and fs[0].bound.get('tilt') == NONE
     chk.ob(clause, 'D-flow', f.key, 'a new wavefront is the unit plane wave (one field of value 1, no offset, no tilt)', ok, '', f.loc())
+
+
+def rescale_unitary_rule(chk, repo, clause):
+    """util.rescale (real images): result = interpolated * [sum(img)/sum(interpolated) if unitary] * post-mask."""
+    for unitary, label in ((TRUE, 'unitary=True'), (FALSE, 'unitary=False')):
+        f, paths, _ = analyse(repo, 'util.rescale', config={'unitary': unitary, 'shape': NONE, 'mask': S('mask')})
+        ok, det, n = True, '', 0
+        for p in returns(paths):
+            if any(pol and 'iscomplexobj' in fmt(c) for c, pol, _ in p.conds):
+                continue
+            if any(pol and fmt(c) == 'is(mask, (None))' for c, pol, _ in p.conds):
+                continue
+            n += 1
+            r = p.ret
+            interp = [a for a in r.atoms(deep=False) if is_app(a, 'scipy.ndimage.map_coordinates') and a[2][0] == S('img')] \
+                if isinstance(r, Poly) else []
+            masks = [a for a in r.atoms(deep=False) if is_app(a, 'setitem')] if isinstance(r, Poly) else []
+            if len(interp) != 1 or len(masks) != 1:
+                ok, det = False, f'result {fmt(r)[:160]}'
+                continue
+            I_, M_ = Poly.atom(interp[0]), Poly.atom(masks[0])
+            want = I_ * M_ * (nf.app('sum', S('img')) / nf.app('sum', I_) if unitary is TRUE else 1)
+            if r != want:
+                ok, det = False, f'result/(interpolated*mask) = {fmt(r / (I_ * M_))[:160]}'
+            ma = masks[0][2][0].single_atom()
+            if ma is None or not is_app(ma, 'scipy.ndimage.map_coordinates') or ma[2][0] != S('mask'):
+                ok, det = False, 'the post-mask is not the interpolated mask'
+        chk.ob(clause, 'N-identity', f.key, f'real image: interpolated x normalisation x post-mask [{label}]', ok and n > 0, det, f.loc())
+
+
+def bayer_tiling_rule(chk, repo, clause):
+    f, paths, _ = analyse(repo, 'detector.collect_charge_bayer', config={'flatten': TRUE})
+    rets = returns(paths)
+    if not rets:
+        raise AnalysisError('collect_charge_bayer: no path')
+    for p in rets:
+        img = p.env.get('img')
+        osf = S('oversample')
+        ish = nf.attr(img, 'shape') if isinstance(img, Poly) else None
+        for col in ('red', 'green', 'blue'):
+            mos = p.env.get(f'{col}_mosaic')
+            a = mos.single_atom() if isinstance(mos, Poly) else None
+            ok, det = False, fmt(mos)[:200]
+            if a is not None and is_app(a, ('kron', 'repeat')) and ish is not None:
+                tile = a[2][0].single_atom() if isinstance(a[2][0], Poly) else None
+                if tile is not None and is_app(tile, 'tile') and isinstance(tile[2][1], Tup) and len(tile[2][1]) == 2:
+                    ker = tile[2][0]
+                    ksh = nf.attr(ker, 'shape')
+                    reps = tile[2][1].items
+                    want = (nf.floor(nf.floor(nf.index(ish, C(1)) / osf) / nf.index(ksh, C(0))),
+                            nf.floor(nf.floor(nf.index(ish, C(2)) / osf) / nf.index(ksh, C(1))))
+                    ok = reps[0] == want[0] and reps[1] == want[1]
+                    if is_app(a, 'kron'):
+                        on = a[2][1].single_atom() if isinstance(a[2][1], Poly) else None
+                        ok = ok and on is not None and is_app(on, 'ones') and isinstance(on[2][0], Tup) and \
+                            tuple(on[2][0].items) == (osf, osf)
+                    det = f'tile repetitions {fmt(reps[0])[:80]} x {fmt(reps[1])[:80]}'
+            chk.ob(clause, 'U-axis', f.key, f'{col} pattern tiled (rows//os)//k0 x (cols//os)//k1 times, then each cell repeated os x os',
+                   ok, det, f.loc())
+
+
+def vegaflux_rule(chk, repo, clause):
+    f, paths, _ = analyse(repo, 'radiometry.vegaflux', config={'valueunit': Const('photlam'), 'band': Const('V')},
+                          symbolic_globals=True)
+    rets = returns(paths)
+    ok, det = False, ''
+    if len(rets) == 1 and isinstance(rets[0].ret, Tup) and len(rets[0].ret) == 2:
+        flux, wave = rets[0].ret.items
+        mt = [a for a in nf.value_atoms(flux) if is_app(a, 'call:radiometry.Meter.to')]
+        if len(mt) == 1:
+            M = Poly.atom(mt[0])
+            w0, jy = Poly.const(Fraction('545e-9')), Poly.const(3636)
+            want_flux = jy * Poly.const(Fraction('1e-26')) / (S('radiometry.H') * w0) / M
+            ok = flux == want_flux and wave == w0 * M
+            det = f'flux = {fmt(flux)}, wave = {fmt(wave)}'
+    chk.ob(clause, 'N-formula', f.key, 'zero point: Jy*1e-26*c/lambda^2 [W/m^2/m] / (h*c/lambda) photons, per requested wavelength unit',
+           ok, det, f.loc())
